@@ -16,7 +16,7 @@ RULE = ('cases: (1) connect() with every device reply sequence up to the length 
         'over {CNXN, CNXN(malformed banner), AUTH token, AUTH other(2,3), noise OKAY, '
         'noise WRTE, silence} x 0-2 recording signers; (2) stream histories (open with '
         'reply OKAY/CLSE/WRTE/illegal/none, device WRTE/CLSE/illegal packet, host '
-        'read/write/close, sized reads, writes answered by WRTE+CLSE, one-shot transport write faults at a CLSE) with STREAM_ID_LIMIT lowered to 3 / 8 / 70 (ids reused at once with 3) or _last_id_used '
+        'read/write/close, sized reads, writes answered by WRTE+CLSE, one-shot transport write faults at a CLSE; (3) two threads opening streams while the id counter wraps, the first held at each line of the id allocation) with STREAM_ID_LIMIT lowered to 3 / 8 / 70 (ids reused at once with 3) or _last_id_used '
         'preset near the real limit; distinct = distinct sequence/history; non-trivial '
         '= the fake device received at least one host message that the oracle compared')
 ASSUMPTIONS = [
